@@ -156,6 +156,30 @@ PROBES = {
 }
 
 
+def _parse_family():
+    """the complete placement matrix (5 helper attributes x ignore / reverse / key / by x type / variant: all rejected; the same on a field and `bound(..)` anywhere:
+    accepted) and, per attribute, every single trait that owns it according to the documentation's table: the attribute is parsed - so its misplacement is reported -
+    whichever of them is the only one derived"""
+    owners = {"ord": ["Ord", "PartialOrd", "Eq", "PartialEq", "Hash"], "partial_ord": ["PartialOrd", "PartialEq"], "eq": ["Eq", "PartialEq", "Hash"],
+              "partial_eq": ["Eq", "PartialEq"], "hash": ["Hash"]}
+    all5 = "Ord, PartialOrd, Eq, PartialEq, Hash"
+    fam = []
+    for a in owners:
+        for arg, word in (("ignore", "ignore"), ("reverse", "reverse"), ("key = $", "key"), ("by = f", "by")):
+            fam.append(rejected("attr", all5, "#[%s(%s)] struct X { a: u8 }" % (a, arg), True, "cannot specify `%s" % word))
+            fam.append(rejected("attr", all5, "enum X { #[%s(%s)] A(u8), B }" % (a, arg), True, "cannot specify `%s" % word))
+            fam.append(rejected("derive", "", "#[derive_ex(%s)] enum X { #[%s(%s)] A { x: u8 } }" % (all5, a, arg), True, "cannot specify `%s" % word))
+        fam.append(rejected("attr", all5, "#[%s(bound(..))] struct X { a: u8 }" % a, False))
+        fam.append(rejected("attr", all5, "enum X { #[%s(bound(..))] A(u8), B }" % a, False))
+        for t in owners[a]:
+            fam.append(rejected("attr", t, "#[%s(ignore)] struct X { a: u8 }" % a, True, "cannot specify `ignore` for type"))
+            fam.append(rejected("derive", "", "#[derive_ex(%s)] enum X { #[%s(reverse)] A(u8) }" % (t, a), True, "cannot specify `reverse` for enum variants"))
+    return fam
+
+
+PROBES["C05.parse"] = _parse_family()
+
+
 def first_failing(name):
     from . import replay_e3
     names = [name] if isinstance(name, str) else list(name)
